@@ -7,6 +7,8 @@ package c17
 import (
 	"fmt"
 	"slices"
+	"sync"
+	"sync/atomic"
 	"testing"
 
 	"github.com/AdguardTeam/golibs/syncutil"
@@ -148,6 +150,79 @@ var typedProp = vp.Register(vp.Prop[TypedCase]{
 })
 
 func TestTyped(t *testing.T) { vp.Run(t, typedProp) }
+
+// HotKeyCase: very many Get calls for ONE key of ONE OnceConstructor (a hot
+// key in a long-running server, e.g. a per-name logger fetched on every
+// request).  "Exactly once per key" has no expiry: counters of any fixed
+// width inside the implementation must not matter.
+type HotKeyCase struct {
+	Gets       uint64 `json:"gets"`
+	Goroutines int    `json:"goroutines"`
+}
+
+func checkHotKey(c HotKeyCase) error {
+	var cons atomic.Int64
+	oc := syncutil.NewOnceConstructor(func(k string) *int64 {
+		cons.Add(1)
+		return new(int64)
+	})
+	first := oc.Get("hot")
+	g := max(1, c.Goroutines)
+	per := c.Gets / uint64(g)
+	errs := make([]error, g)
+	var wg sync.WaitGroup
+	for i := 0; i < g; i++ {
+		wg.Add(1)
+		go func() {
+			defer wg.Done()
+			errs[i] = vp.Guard(func() error {
+				for j := uint64(0); j < per; j++ {
+					if oc.Get("hot") != first {
+						return fmt.Errorf("Get call no. ~%d of goroutine %d returned a different result than the first call", j, i)
+					}
+				}
+				return nil
+			})
+		}()
+	}
+	wg.Wait()
+	for _, e := range errs {
+		if e != nil {
+			return fmt.Errorf("after about %d Get calls for one key: %w (constructor calls: %d)", uint64(g)*per, e, cons.Load())
+		}
+	}
+	if n := cons.Load(); n != 1 {
+		return fmt.Errorf("the constructor ran %d times for one key over %d Get calls", n, uint64(g)*per+1)
+	}
+	return nil
+}
+
+var hotKeyProp = vp.Register(vp.Prop[HotKeyCase]{Kind: "c17.hot-key", Check: checkHotKey})
+
+// TestHotKey runs in the thorough tier only (one shard, the build without the
+// race detector): 2^32 + 2^20 calls cross every 32-bit boundary.
+func TestHotKey(t *testing.T) {
+	c := HotKeyCase{Gets: 1 << 22, Goroutines: 16}
+	if shard, _ := vp.Shard(); vp.Thorough() && vp.Variant() == "bubble" && shard == 0 {
+		// One goroutine: after construction every Get receives from the same
+		// closed channel, whose lock makes parallel callers slower in total.
+		c.Gets, c.Goroutines = 1<<32+1<<20, 1
+	} else if vp.Variant() != "bubble" {
+		t.Skip("runs in the variant built without the race detector")
+	}
+	vp.Eval("c17.hot-key")
+	vp.CurrentJSON("c17.hot-key", c)
+	if err := checkHotKey(c); err != nil {
+		vp.Fail(t, "c17.hot-key", c, err)
+		return
+	}
+	vp.Class(fmt.Sprintf("hot-key:%d-gets-on-one-key", c.Gets))
+	if c.Gets > 1<<32 {
+		vp.Class("hot-key:more-than-2^32-gets-on-one-key")
+		vp.NonTrivialStr("c17.hot-key", fmt.Sprint(c))
+		vp.Sample("hot-key", c)
+	}
+}
 
 // Act is one step of a harness script.
 type Act struct {
